@@ -24,6 +24,7 @@ EXPLANATION = (
     "an element at that index may have been deleted. Placement for every layout, and Markdown's own "
     "rendering, are not decided."
     ' R6: values computed once per declaration statement (attribute lists, dimension) are copied per variable, not shared. R7: a metadata continuation line needs an open key.'
+    " Added after waves 6/7 - a summary replaces the full text only on paths on which the entity (or the owner of its page) is visible (template conditions evaluated propositionally); a skipped declaration consumes its documentation lines."
 )
 ASSUMPTIONS = ["doc markers are configurable strings of any length (settings schema: str)"]
 
